@@ -134,7 +134,8 @@ def probe_opt(ctx, payload):
         return None if o.exc else [x.hex() for t_ in o.res for p_ in t_ for x in (float(p_.mu), float(p_.sigma))]
 
     if not any(len(t_) == 5 for t_ in case["teams"]):
-        c_boom = dict(case, cfg=dict(case["cfg"], tau=t, limit_sigma=lim, gamma="boom"), call={})
+        boom = ("boom", "boom_type", "boom_key", "boom_value", "boom_attr")[(len(case["teams"]) + len(case["teams"][0])) % 5]
+        c_boom = dict(case, cfg=dict(case["cfg"], tau=t, limit_sigma=lim, gamma=boom), call={})
         m_x, teams_x, kw_x = build(c_boom)
         m_y, teams_y, kw_y = build(c_boom)
         five = [[m_x.rating(name=f"f{i}") for i in range(5)], [m_x.rating(name="g")]]
